@@ -1082,7 +1082,7 @@ class Evaluator:
                 if items is not None:
                     out.extend(items)
                 else:
-                    out.append(Star(v if isinstance(v, V) else Sym(key_of(v))))
+                    out.append(Star(self.lib.as_v(self, v)))
             else:
                 out.append(self.eval(x, fr))
         return out
@@ -1331,7 +1331,7 @@ class Evaluator:
                 v = self.eval(a.value, fr)
                 items = self.concrete_items(v)
                 if items is None:
-                    args.append(Star(v if isinstance(v, V) else Sym(key_of(v))))
+                    args.append(Star(self.lib.as_v(self, v)))
                 else:
                     args.extend(items)
             else:
